@@ -53,6 +53,19 @@ func TestVerif_C06_Real(t *testing.T) {
 	// more addresses with two full batches than the writer's pop-rank list holds (10 000), then an address with
 	// exactly one full batch and a short tail when the periodic flush runs
 	scs = append(scs, scenario{"rank-list-overflow", []int{1008, 2000, 150}, 100_025, 10_001})
+	// at Close: a dozen addresses with one full batch still parked in the background writer AND five newer entries
+	// pending, next to forty single-entry addresses (more than 12 records are left to be written, the size from
+	// which Go's sort stops being an insertion sort)
+	{
+		counts := []int{}
+		for i := 0; i < 12; i++ {
+			counts = append(counts, 1005)
+		}
+		for i := 0; i < 40; i++ {
+			counts = append(counts, 1)
+		}
+		scs = append(scs, scenario{"many-parked-batches-with-remainders", counts, 0, 0})
+	}
 	// more distinct addresses than the pubkey index holds when it is built for the writer's default of one million
 	// items (100 buckets, each of which must be hashed without collision into 24 bits)
 	scs = append(scs, scenario{"two-million-addresses", []int{1, 2, 1000, 1001}, 2_000_000, 0})
